@@ -91,6 +91,7 @@ struct OutMsg {                        // a message the broker sends to the clie
     uint64_t created_seq = 0;
     std::vector<int> publish_idx, pubrel_idx;   // SentPkt idx
     bool fully_sent_once = false;
+    bool emission_withheld = false;   // an injected fault swallowed a (re)transmission of its PUBLISH or PUBREL: the broker lost it
 };
 
 struct Session {
